@@ -7,6 +7,10 @@ BASE = json.load(open("/root/.vp/BASELINE.json"))["cmd"] if Path("/root/.vp/BASE
     "cd /repo && /venv/bin/python -m pytest -ra -q -p no:cacheprovider --timeout=900 --continue-on-collection-errors --junitxml=<file>"
 
 CHECKS = {
+ "C10": dict(cat="exploration", ref="§C10",
+    tech="property-based testing (Hypothesis): generated models x valid documents x injections (unknown elements with arbitrary subtrees, unknown attributes, xsi attributes, unconvertible values; unknown JSON keys and values) x the 8 fail_on_* combinations x both handlers / dict and JSON decoders; oracle = the documented truth table with the un-injected parse as reference",
+    text="Generated search; for every injection the outcome must be exactly what the option combination prescribes: ParserError iff the matching fail_on_* option is on, otherwise an object structurally equal to the un-injected parse (or to the instance with the raw value kept, plus a ConverterWarning). Searched, not proved.",
+    note="Injection points and typed leaves come from the ModelSpec via vlib/expect.py; unknown keys/values of nested JSON objects behind union/base typed fields are outside the claim (documented best-match limitation)."),
  "C09": dict(cat="exploration", ref="§C09",
     tech="property-based testing (Hypothesis) with a metamorphic oracle: a harness-side XML writer re-writes the document (prefixes, default namespace, declaration placement, attribute order, inter-element whitespace, comments/PIs, CDATA, character references, encodings/BOM, blanks around non-string values, XInclude) driven by a generated choice tape; parse(rewritten) must equal parse(original)",
     text="Generated models and instances; the document xsdata writes is rewritten without changing its infoset (self-checked with an independent libxml2 parse) using 2-8 rewrite kinds per case; both handlers must bind the rewritten document to an object structurally equal to the one bound from the original. Searched, not proved.",
